@@ -16,6 +16,7 @@ import TonVerif.Proofs.SrcOrderAny
 import TonVerif.Proofs.SrcBocAny
 import TonVerif.Proofs.SrcHashmapCnt
 import TonVerif.Proofs.SrcBocCnt
+import TonVerif.Proofs.SrcCtorCnt
 
 namespace TonVerif.Properties.C19
 open TonVerif TonVerif.Model TonVerif.Model.Cost TonVerif.Proofs.Cost
@@ -423,6 +424,59 @@ example : ((deserialize_cnt (R := Unit) [0xb5, 0xee, 0x9c, 0x72, 0x01, 0x01, 0x0
     = (true, 1, 1, 1) := by decide
 
 end SrcBocCnt
+
+/-! ### the ITERATION-COUNTING copy of the regenerated cell constructor (`Generated.CellCtorCnt`, harness/translate/ctorcnt.py)
+
+`init_cnt` = the text of `Generated.CellCtor.init` / `calculate_hashes` / `resolve_mask` (regenerated from cell.py on every run) with every
+`List.foldlM` a `Py.foldW? k`.  Counters: 0 `for r in self.refs` of `resolve_mask`, 1 `for li in range(level + 1)` of `calculate_hashes`,
+2 its depth loop over the references, 3 its hash loop over the references.  The constructor never descends into a referenced cell: it reads
+`r.mask`, `get_depth`, `get_hash` (list lookups in the cached `_depths` / `_hashes`), which contain no loop. -/
+section SrcCtorCnt
+open TonVerif.Generated.CellCtorCnt TonVerif.Proofs.SrcCtorCnt
+
+/-- loop iterations of one call of the regenerated `Cell.__init__` -/
+def ctorIters (H : Bytes → Bytes) (bits : Bits) (refs : List CellInfo) (ty : Int) : Nat :=
+  (init_cnt H bits refs ty).2 0 + (init_cnt H bits refs ty).2 1 + (init_cnt H bits refs ty).2 2 + (init_cnt H bits refs ty).2 3
+
+/-- ERASURE: the counting copy computes exactly the regenerated constructor (every hash function, bits, children, type). -/
+theorem c19_src_ctor_erase (H : Bytes → Bytes) (bits : Bits) (refs : List CellInfo) (ty : Int) :
+    (init_cnt H bits refs ty).1 = Generated.CellCtor.init H bits refs ty := init_cnt_erase H bits refs ty
+
+/-- HASH WORK PER CELL, on the constructor as written: for EVERY call, the loops of `resolve_mask` + `calculate_hashes` start at most
+`ctorSteps lv d = d + lv·(1 + 2d)` iterations (the cost model's count) with `lv = bit_length(level mask) + 1` level iterations and `d = len(refs)`;
+no other counter ticks.  When the cell is not a pruned branch and its children have level ≤ 3 (mask ≤ 7 - true of every cell this
+constructor built from such children, `resolve_mask_le`), the level loop starts ≤ 4 iterations, each touching every reference once in the depth
+loop and once in the hash loop: `≤ 4 + 9·d ≤ 9·(1 + d)` iterations per cell.  (A pruned branch has no references: `≤ bit_length(mask byte) + 1 ≤ 9`.) -/
+theorem c19_src_hash_work (H : Bytes → Bytes) (bits : Bits) (refs : List CellInfo) (ty : Int) :
+    ctorIters H bits refs ty ≤ ctorSteps (levelIters ty refs bits) refs.length ∧
+    (∀ j, 4 ≤ j → (init_cnt H bits refs ty).2 j = 0) ∧
+    (ty ≠ 1 → (∀ r ∈ refs, r.mask ≤ 7) →
+      (init_cnt H bits refs ty).2 1 ≤ 4 ∧ ctorIters H bits refs ty ≤ 4 + 9 * refs.length ∧
+      ∀ m, Generated.CellCtor.resolve_mask ty refs bits = some m → m ≤ 7) := by
+  refine ⟨ctor_total H bits refs ty, ctor_other H bits refs ty, fun hty hr => ?_⟩
+  obtain ⟨a, b⟩ := ctor_le H bits refs ty (levelIters_le ty refs bits hty hr)
+  exact ⟨a, b, resolve_mask_le ty refs bits hty hr⟩
+
+/-- BUILDING A DAG: `n` constructor calls (one per distinct cell, children first - the constructor reads the children's cached values) carrying `e`
+references in total, none a pruned branch, children of level ≤ 3: `≤ 4n + 9e` loop iterations, i.e. O(n + e) hash inputs of bounded length
+(`c19_build_linear` bounds the bytes) - sums over distinct cells and references, never over paths. -/
+theorem c19_src_build_linear (H : Bytes → Bytes) (calls : List (Bits × List CellInfo × Int))
+    (hok : ∀ c ∈ calls, c.2.2 ≠ 1 ∧ ∀ r ∈ c.2.1, r.mask ≤ 7) :
+    (calls.map fun c => ctorIters H c.1 c.2.1 c.2.2).sum ≤ 4 * calls.length + 9 * (calls.map fun c => c.2.1.length).sum := by
+  induction calls with
+  | nil => simp
+  | cons c cs ih =>
+    have h := (c19_src_hash_work H c.1 c.2.1 c.2.2).2.2 (hok c (by simp)).1 (hok c (by simp)).2
+    have := ih (fun x hx => hok x (by simp [hx]))
+    simp only [List.map_cons, List.sum_cons, List.length_cons]
+    omega
+
+/-- non-vacuity: an ordinary cell with two level-0 children: 2 + 1·(1 + 2·2) = 7 iterations, the level loop runs once -/
+example : let leaf : CellInfo := { kind := -1, bits := [], nrefs := 0, mask := 0, hashes := [[0]], depths := [0] }
+    ((init_cnt (fun b => b) [true] [leaf, leaf] (-1)).1.isSome, ctorIters (fun b => b) [true] [leaf, leaf] (-1),
+      (init_cnt (fun b => b) [true] [leaf, leaf] (-1)).2 1) = (true, 7, 1) := by decide
+
+end SrcCtorCnt
 /-! ## END c19src -/
 
 /-! ## the EMITTER's loops on the working tree (`Generated.BocEmitSrc`: `Cell.order`, `Cell.to_boc`, `Cell.serialize` regenerated from
